@@ -725,7 +725,7 @@ outerNew:
 				}
 			}
 
-			if cursor.Hyperlink != next.Hyperlink {
+			if cursor.Hyperlink != next.Hyperlink || cursor.HyperlinkParams != next.HyperlinkParams {
 				link := next.Hyperlink
 				linkPs := next.HyperlinkParams
 				if link == "" {
